@@ -32,6 +32,9 @@ SearchViol(t) ==
              ELSE IF Len(t.res) = n /\ \A j \in 1..n : t.res[j][2] = all[j] THEN {} ELSE {<<l, "WrongTopK">>})
             \cup (IF \A a, b \in 1..Len(t.res) : a # b => t.res[a][1] # t.res[b][1] THEN {} ELSE {<<l, "DuplicateId">>})
             \cup (IF t.ev = "search" /\ t.asked # 1 THEN {<<l, "NotEachOnce">>} ELSE {})
+            \* a search is a read: what the partitions store is the same afterwards (C04: replicas that serve searches
+            \* stay identical to those that do not)
+            \cup (IF t.mutated = 1 THEN {<<l, "SearchMutates">>} ELSE {})
        [] t.ret = "err" /\ AllOk(t) /\ ~Cancelled(t) -> {<<l, "SpuriousError">>}
        [] OTHER -> {}
 
